@@ -60,7 +60,7 @@ func TestVerif_C14_FailedWrite(t *testing.T) {
 			base[0] = st.paths[0].cur
 			var o *c14Op
 			if rapid.IntRange(0, 9).Draw(rt, "setupShape") == 0 {
-				o = &c14Op{kind: "config", maxV: -1, casReq: rapid.IntRange(0, 1).Draw(rt, "cas_required")}
+				o = &c14Op{kind: "config", maxV: -1, casReq: rapid.IntRange(0, 1).Draw(rt, "cas_required"), dva: rapid.IntRange(0, 3).Draw(rt, "deleteVersionAfter") == 0}
 			} else {
 				o = c14GenOp(rt, 1, base, fmt.Sprintf("s%d", i), true)
 				if o.kind == "deletev" && rapid.Bool().Draw(rt, "undeleteInstead") {
